@@ -36,6 +36,7 @@ type caseT struct {
 	HSeed   int64  `json:"hseed"` // virtual nanoseconds since bubble epoch at which New is called
 	History []op   `json:"history"`
 	Audit   int    `json:"audit"` // full audit every Audit operations (1 = every op)
+	Big     *bigT  `json:"big,omitempty"`
 }
 
 var rec *common.Recorder
@@ -293,6 +294,15 @@ func runCase(c caseT) {
 	}
 }
 
+func synctest_run(t *testing.T, c caseT) {
+	synctest.Test(t, func(t *testing.T) {
+		id := fmt.Sprintf("%s-%d-%s-%d", c.Order, c.HSeed, c.Big.Family, c.Big.W)
+		rec.Begin(id, c)
+		runBig(c)
+		rec.End(id)
+	})
+}
+
 func bubble(t *testing.T, cases []caseT) {
 	sort.SliceStable(cases, func(i, j int) bool { return cases[i].HSeed < cases[j].HSeed })
 	synctest.Test(t, func(t *testing.T) {
@@ -312,9 +322,14 @@ func TestRun(t *testing.T) {
 			rec.Inconclusive("cannot load replay: " + err.Error())
 			return
 		}
+		if c.Big != nil {
+			synctest_run(t, c)
+			return
+		}
 		bubble(t, []caseT{c})
 		return
 	}
+	bigCases(t)
 	orders := []string{"int", "rev", "str", "mod"}
 	// ---- exhaustive: all histories over 3 keys
 	depth := common.Pick(5, 6)
